@@ -68,6 +68,13 @@ def enc(xs):
     return ','.join(q2s(x) for x in xs) if xs else '-'
 
 
+GRADE_BUDGET = 40000
+
+
+class GradeBudget(Exception):
+    pass
+
+
 class PyMesh:
     """The real mesh, driven through the same textual operations as the Lean driver."""
     def __init__(self, mesh):
@@ -104,18 +111,37 @@ class PyMesh:
                 elif kind == 'daniso':
                     m.dorfler_refine_anisotropic(op[1], op[2])
                 elif kind == 'grade':
-                    # the property speaks of the DEFAULT parameters: rely on the defaults wherever the request has them
-                    if op[2] == 4 and op[1] == 2:
-                        m.refine_grading()
-                    elif op[2] == 4:
-                        m.refine_grading(sigma=op[1])
-                    else:
-                        m.refine_grading(sigma=op[1], K=op[2])
+                    # a grading call that performs more than GRADE_BUDGET bisections is running away (the window is reached
+                    # after a few hundred on the meshes used here): stop it before it eats memory and time -> 'err-budget'
+                    real_refine_axis = m.refine_axis
+                    spent = [0]
+
+                    def budgeted(elem, ax):
+                        spent[0] += 1
+                        if spent[0] > GRADE_BUDGET:
+                            raise GradeBudget()
+                        return real_refine_axis(elem, ax)
+                    own = 'refine_axis' not in m.__dict__
+                    if own:
+                        m.refine_axis = budgeted
+                    try:
+                        # the property speaks of the DEFAULT parameters: rely on the defaults wherever the request has them
+                        if op[2] == 4 and op[1] == 2:
+                            m.refine_grading()
+                        elif op[2] == 4:
+                            m.refine_grading(sigma=op[1])
+                        else:
+                            m.refine_grading(sigma=op[1], K=op[2])
+                    finally:
+                        if own:
+                            del m.refine_axis
                 else:
                     raise ValueError(op)
             return 'ok %d' % len(m.leaf_elements)
         except AssertionError:
             return 'err'
+        except GradeBudget:
+            return 'err-budget'
         except (AttributeError, IndexError, KeyError, TypeError) as exc:
             return 'err'
 
